@@ -4,6 +4,8 @@ Stage level (shared with C06, harness/bootstage.py): every combination of call s
 un-overridden bounds and of the prediction is produced with assigned draws; `_format_called_contests` is driven
 directly with random lists; API level: bootstrap runs through ModelClient with call/stop lists (harness/election.py).
 """
+import numpy as np
+
 from harness import bootstage as S
 from harness import common as C
 from harness import extract as X
@@ -41,9 +43,13 @@ def format_cases(run, driver, n):
         rhs = [rng.choice(pool) for _ in range(rng.randint(0, 3))]
         if rng.random() < 0.6:
             rhs = [c for c in rhs if c not in lhs]
-        case = {"format": True, "lhs": lhs, "rhs": rhs, "contests": contests}
+        # the lists arrive in whatever container the caller has: list, tuple, set, numpy array, pandas index
+        kind = rng.choice(["list", "list", "tuple", "set", "array", "index"])
+        wrap = {"list": list, "tuple": tuple, "set": set, "array": lambda l: np.array(l, dtype=object),
+                "index": lambda l: __import__("pandas").Index(l, dtype=object)}[kind]
+        case = {"format": True, "lhs": lhs, "rhs": rhs, "contests": contests, "container": kind}
         try:
-            v = model._format_called_contests(lhs, rhs, contests, 1, 0, -1)
+            v = model._format_called_contests(wrap(lhs), wrap(rhs), wrap(contests) if kind == "index" else contests, 1, 0, -1)
             impl = [{1: "lhs", 0: "rhs", -1: "none"}[int(x)] for x in v]
         except bm.BootstrapElectionModelException:
             impl = {"raises": True}
